@@ -19,6 +19,9 @@ def main() -> int:
     args = ap.parse_args()
     prop = args.prop.upper()
     seed = int(os.environ.get("VERIF_SEED", "0") or 0)
+    from . import rustext
+    if rustext.SO.exists():
+        rustext.preload()
     try:
         mod = importlib.import_module(f"harness.props.{prop.lower()}")
     except ModuleNotFoundError as exc:
